@@ -4,7 +4,7 @@ Import ListNotations.
 From OV Require Import C24.Model C24.Proofs.
 Open Scope Z_scope.
 
-(* For every server maximum >= 1, every requested size/policy and EVERY history of samples, modify
+(* For every server maximum (0 included), every requested size/policy and EVERY history of samples, modify
    requests (any u32 size, either policy, accepted or refused filter) and drains, the model of the
    code produces exactly the output of the reference evaluator [spec] (closed forms: newest `size`
    entries / newest slot replaced / most recent entries that fit); no panic marker. *)
@@ -18,23 +18,23 @@ Print Assumptions C24_oracle.
 
 (* Invariant over arbitrary histories, any payload type: from any state satisfying the invariant
    (in particular a freshly created item) no operation sequence panics and the state reached has
-   1 <= size <= max and |queue| <= size. *)
+   1 <= size <= max(1, server maximum) and |queue| <= size. *)
 Theorem C24_bounded_no_panic : forall (A : Type) mx (ops : list (@gop A)) (s : st A),
-  1 <= mx -> Forall gop_ok ops -> inv mx s ->
-  exists s', steps mx s ops = Done s' /\ 1 <= size s' <= mx /\ len (q s') <= size s'.
-Proof. intros A mx ops s Hm Ho Hi. exact (steps_inv mx ops Hm Ho s Hi). Qed.
+  Forall gop_ok ops -> inv mx s ->
+  exists s', steps mx s ops = Done s' /\ 1 <= size s' <= Z.max 1 mx /\ len (q s') <= size s'.
+Proof. intros A mx ops s Ho Hi. exact (steps_inv mx ops Ho s Hi). Qed.
 Print Assumptions C24_bounded_no_panic.
 
-Theorem C24_created_item_ok : forall (A : Type) mx r d, 1 <= mx -> 0 <= r -> inv mx (create (A:=A) mx r d).
+Theorem C24_created_item_ok : forall (A : Type) mx r d, 0 <= r -> inv mx (create (A:=A) mx r d).
 Proof. intros. apply create_inv; assumption. Qed.
 Print Assumptions C24_created_item_ok.
 
 (* Sample order: the queue content is a subsequence (in order) of the previous content followed by
    the samples of the history. *)
 Theorem C24_order_preserved : forall (A : Type) mx (ops : list (@gop A)) (s s' : st A),
-  1 <= mx -> Forall gop_ok ops -> inv mx s -> steps mx s ops = Done s' ->
+  Forall gop_ok ops -> inv mx s -> steps mx s ops = Done s' ->
   subseq (vals (q s')) (vals (q s) ++ sampled ops).
-Proof. intros A mx ops s s' Hm Ho Hi E. exact (steps_order mx ops Hm Ho s s' Hi E). Qed.
+Proof. intros A mx ops s s' Ho Hi E. exact (steps_order mx ops Ho s s' Hi E). Qed.
 Print Assumptions C24_order_preserved.
 
 (* One sample: discard-oldest keeps the newest `size` entries, otherwise the newest slot is
@@ -53,7 +53,7 @@ Print Assumptions C24_enqueue_law.
 (* One modify request whose filter decodes: never a panic, the revised size is the clamp of the
    request into [1, max], and the queue keeps the most recent entries that fit. *)
 Theorem C24_modify_law : forall (A : Type) mx (s : st A) r d f,
-  1 <= mx -> 0 <= r -> inv mx s -> f <> 2 ->
+  0 <= r -> inv mx s -> f <> 2 ->
   exists s' res, modify mx s r d f = Done (s', res) /\
     size s' = Z.max 1 (Z.min mx r) /\ disc s' = d /\
     q s' = lastn (Z.to_nat (size s')) (q s) /\
@@ -67,3 +67,11 @@ Theorem C24_legacy_refuted :
   exists c, valid c /\ In (-2) (legacy_run c) /\ oracle c (legacy_run c) = false.
 Proof. exact legacy_refuted. Qed.
 Print Assumptions C24_legacy_refuted.
+
+(* The code before "fix: a configured maximum queue size of 0 revised queue sizes to 0 and the
+   queue grew without bound". *)
+Theorem C24_legacy_max0_refuted :
+  let s := Legacy.create (A:=Z) 0 5 true in
+  size s = 0 /\ len (q (enqueue (enqueue (enqueue s 1) 2) 3)) = 3.
+Proof. exact legacy_max0_refuted. Qed.
+Print Assumptions C24_legacy_max0_refuted.
